@@ -4,6 +4,8 @@ from rules import gdsrules as gr
 
 def run(ctx):
     g = gr.Gds(ctx)
+    from rules import deadrules as _dr
+    _dr.rule_parsed_fields_used(ctx, "R01.9", ("gds21::read::",), 30)
     gr.rule_codec_agreement(ctx, g, "R01.1")
     gr.rule_field_diagonal(ctx, g, "R01.2")
     # packed STRANS flag word: both sides place each flag on the manual's bit, hence on the same bit
